@@ -558,4 +558,351 @@ theorem pickedWith_member {s : Server} {topic cid : Str} {sub : Sub} (h : Picked
   obtain ⟨g, hg, hm⟩ := pickAt_mem _ _ _ _ hk
   exact ⟨g, (visitOrder_perm s topic).mem_iff.mp (List.mem_of_getElem? hg), hm⟩
 
+/-! ## Inline subscriptions: which `Out.inline` a publish produces -/
+
+def isInlineOut : Out → Bool
+  | .inline .. => true
+  | _ => false
+
+theorem writeMsg_noInline (s : Server) (i : Nat) (m : Msg) : ∀ x ∈ writeMsg s i m, isInlineOut x = false := by
+  unfold writeMsg
+  extract_lets c
+  split
+  · intro x hx; cases hx
+  · split
+    · intro x hx
+      rw [List.mem_singleton] at hx
+      subst hx; rfl
+    · intro x hx
+      rw [List.mem_singleton] at hx
+      subst hx; rfl
+
+theorem publishToClientCore_noInline (s : Server) (i : Nat) (sub : Sub) (f : Bool) (pk : Msg) :
+    ∀ x ∈ (publishToClientCore s i sub f pk).2, isInlineOut x = false := by
+  unfold publishToClientCore
+  extract_lets c out
+  split
+  rename_i c1 out1 heq
+  clear heq
+  extract_lets s1
+  split
+  · split
+    · intro x hx; cases hx
+    · split
+      · intro x hx
+        rw [List.mem_singleton] at hx
+        subst hx; rfl
+      · extract_lets c2 out2 sentQuota
+        split
+        rename_i c3 isNew hfl
+        extract_lets c4 s2 src s3
+        split
+        · intro x hx; cases hx
+        · split
+          · intro x hx; cases hx
+          · exact writeMsg_noInline _ _ _
+  · split
+    · intro x hx; cases hx
+    · exact writeMsg_noInline _ _ _
+
+theorem publishToClient_noInline (s : Server) (i : Nat) (sub : Sub) (f : Bool) (pk : Msg) :
+    ∀ x ∈ (publishToClient s i sub f pk).2, isInlineOut x = false := by
+  unfold publishToClient
+  split
+  · intro x hx; cases hx
+  · split
+    · intro x hx; cases hx
+    · exact publishToClientCore_noInline s i sub f pk
+
+/-- the deliveries to clients only append outputs that are not inline deliveries -/
+theorem deliverFold_outs (pk : Msg) (L : List (Str × Sub)) (acc : Server × List Out) :
+    ∃ rest, (L.foldl (deliverStep pk) acc).2 = acc.2 ++ rest ∧ ∀ x ∈ rest, isInlineOut x = false := by
+  induction L generalizing acc with
+  | nil => exact ⟨[], by simp, fun x hx => by cases hx⟩
+  | cons cs rest ih =>
+    rw [List.foldl_cons]
+    obtain ⟨r, h1, h2⟩ := ih (deliverStep pk acc cs)
+    cases hc : assocGet acc.1.clients cs.1 with
+    | none =>
+      have e : deliverStep pk acc cs = acc := by unfold deliverStep; rw [hc]
+      rw [e] at h1 ⊢
+      exact ⟨r, h1, h2⟩
+    | some i =>
+      have e : (deliverStep pk acc cs).2 = acc.2 ++ (publishToClient acc.1 i cs.2 false pk).2 := by
+        unfold deliverStep; rw [hc]
+      rw [e, List.append_assoc] at h1
+      refine ⟨_, h1, ?_⟩
+      intro x hx
+      rcases List.mem_append.mp hx with hx | hx
+      · exact publishToClient_noInline _ _ _ _ _ x hx
+      · exact h2 x hx
+
+/-- the outputs of a publish: one inline delivery per entry of the map of matching inline subscriptions, then
+    outputs that are not inline deliveries — for every message (any QoS) the publish hook does not mark "ignore" -/
+theorem publishToSubscribers_outs (s : Server) (pk : Msg) (hig : pk.ignore = false) :
+    ∃ rest, (publishToSubscribers s pk).2 =
+        ((subscribers s.topics pk.topic).inline.map fun x => Out.inline x.1 pk.topic pk.payload) ++ rest ∧
+      ∀ x ∈ rest, isInlineOut x = false := by
+  rw [publishToSubscribers_eq_fold_shared s pk hig]
+  exact deliverFold_outs _ _ _
+
+theorem mem_inline_outs (m : List (Nat × Sub)) (topic payload : Str) (id : Nat) (t p : Str) :
+    Out.inline id t p ∈ (m.map fun x => Out.inline x.1 topic payload) ↔
+      t = topic ∧ p = payload ∧ id ∈ m.map Prod.fst := by
+  simp only [List.mem_map, Out.inline.injEq]
+  constructor
+  · rintro ⟨a, ha, h1, h2, h3⟩
+    exact ⟨h2.symm, h3.symm, a, ha, h1⟩
+  · rintro ⟨h1, h2, a, ha, h3⟩
+    exact ⟨a, ha, h3, h1.symm, h2.symm⟩
+
+theorem count_inline_outs (m : List (Nat × Sub)) (hnd : (m.map Prod.fst).Nodup) (topic payload : Str) (o : Out) :
+    (m.map fun x => Out.inline x.1 topic payload).count o ≤ 1 := by
+  apply List.nodup_iff_count.mp
+  have : (m.map fun x => Out.inline x.1 topic payload) = (m.map Prod.fst).map (fun i => Out.inline i topic payload) := by
+    rw [List.map_map]; rfl
+  rw [this]
+  exact List.pairwise_map.mpr (List.Pairwise.imp (fun h e => h (by injection e)) hnd)
+
+theorem count_noInline (rest : List Out) (h : ∀ x ∈ rest, isInlineOut x = false) (id : Nat) (t p : Str) :
+    rest.count (Out.inline id t p) = 0 := by
+  apply List.count_eq_zero.mpr
+  intro hm
+  have := h _ hm
+  cases this
+
+end Mochi.Broker
+
+namespace Mochi.Topics
+
+/-- the inline subscription held for identifier `id` by the particle at address `q` (= the levels of the filter it
+    was subscribed under) -/
+def inlineAt (x : Index) (q : Path) (id : Nat) : Option Sub :=
+  (getNode x.nodes q).bind (fun n => assocGet n.inline id)
+
+theorem mem_keys_iff_assocGet {α β} [DecidableEq α] (m : List (α × β)) (k : α) :
+    k ∈ m.map Prod.fst ↔ ∃ v, assocGet m k = some v := by
+  constructor
+  · intro h
+    cases hg : assocGet m k with
+    | none => exact absurd h (assocGet_none_not_mem m k hg)
+    | some v => exact ⟨v, rfl⟩
+  · rintro ⟨v, h⟩
+    exact List.mem_map.mpr ⟨(k, v), assocGet_mem _ _ _ h, rfl⟩
+
+/-- **the map of matching inline subscriptions of a prefix-closed index** (C01's `C01_inline_exact`, for every
+    structurally sound index and with the declarative matcher): identifier `id` is selected for `topic` iff a
+    particle whose address `specMatch`es the topic holds an inline subscription of `id` -/
+theorem inline_keys_iff (x : Index) (hpc : PrefixClosed x.nodes) (topic : Str) (hne : topic ≠ [])
+    (hnh : ∀ t ∈ splitLevels topic, t ≠ [hash]) (id : Nat) :
+    id ∈ (subscribers x topic).inline.map Prod.fst ↔
+      ∃ q sub, inlineAt x q id = some sub ∧ specMatch q topic = true := by
+  unfold subscribers
+  have : topic.isEmpty = false := by cases topic <;> simp_all
+  simp only [this, Bool.false_eq_true, if_false]
+  rw [fold_inline_keys]
+  have hscan : ∀ q, Gather.inline q ∈ scanVisits x.nodes [] (splitLevels topic) ↔
+      hasNode x.nodes q = true ∧ matchLv q (splitLevels topic) = true := by
+    intro q
+    rw [scan_iff Gather.inline mem_gatherAll_inline _ hpc _ (splitLevels_ne_nil topic) hnh]
+    simp
+  have hdr : ∀ q, dollarRule q topic = (topicDollar topic && wildStart q) := by
+    intro q
+    unfold dollarRule topicDollar wildStart
+    cases topic <;> simp
+  constructor
+  · rintro (h | ⟨q, hq, n, hn, hx, hi⟩)
+    · simp at h
+    · obtain ⟨sub, hsub⟩ := (mem_keys_iff_assocGet _ _).mp hi
+      refine ⟨q, sub, by unfold inlineAt; rw [hn]; exact hsub, ?_⟩
+      unfold specMatch
+      rw [((hscan q).mp hq).2, hdr, hx]
+      rfl
+  · rintro ⟨q, sub, hat, hsm⟩
+    unfold inlineAt at hat
+    cases hn : getNode x.nodes q with
+    | none => rw [hn] at hat; cases hat
+    | some n =>
+      rw [hn] at hat
+      unfold specMatch at hsm
+      rw [hdr] at hsm
+      have hm : matchLv q (splitLevels topic) = true := by
+        cases h : matchLv q (splitLevels topic)
+        · rw [h] at hsm; cases hsm
+        · rfl
+      have hx : (topicDollar topic && wildStart q) = false := by
+        rw [hm] at hsm
+        cases h1 : topicDollar topic <;> cases h2 : wildStart q <;> simp [h1, h2] at hsm ⊢
+      right
+      refine ⟨q, (hscan q).mpr ⟨?_, hm⟩, n, hn, hx, (mem_keys_iff_assocGet _ _).mpr ⟨sub, hat⟩⟩
+      rw [hasNode_iff]
+      exact ⟨n, getNode_mem hn, getNode_path hn⟩
+
+theorem nodup_inline_fold (entries m : List (Nat × Sub)) (h : (m.map Prod.fst).Nodup) :
+    ((entries.foldl gatherInlineOne m).map Prod.fst).Nodup := by
+  induction entries generalizing m with
+  | nil => exact h
+  | cons e rest ih => exact ih _ (assocSet_nodup_keys _ _ _ h)
+
+/-- the map of matching inline subscriptions has one entry per identifier -/
+theorem subscribers_inline_nodup (x : Index) (topic : Str) : ((subscribers x topic).inline.map Prod.fst).Nodup := by
+  unfold subscribers
+  split
+  · exact List.nodup_nil
+  · refine Mochi.Broker.foldl_inv (fun acc : Subscribers => (acc.inline.map Prod.fst).Nodup) _ _ _ List.nodup_nil ?_
+    intro acc g h
+    cases g with
+    | subs p => simp only [gatherStep]; split <;> exact h
+    | shared p => simp only [gatherStep]; (repeat' split) <;> exact h
+    | inline p =>
+      simp only [gatherStep]
+      split
+      · exact h
+      · split
+        · exact h
+        · exact nodup_inline_fold _ _ h
+
+/-- `InlineUnsubscribe(id, f)` removes the entry of `id` at the address of `f`, and nothing else -/
+theorem inlineAt_inlineUnsubscribe (x : Index) (hpc : PrefixClosed x.nodes) (id : Nat) (f : Str) (q : Path) (id' : Nat) :
+    inlineAt (inlineUnsubscribe x id f).1 q id' =
+      if q = plainPath f ∧ id' = id then none else inlineAt x q id' := by
+  unfold inlineAt inlineUnsubscribe plainPath
+  simp only [seek_eq_getNode _ hpc]
+  cases hg : getNode x.nodes (pathFrom (splitLevels f) 0) with
+  | none =>
+    simp only
+    split
+    · rename_i h
+      rw [h.1, hg]; rfl
+    · rfl
+  | some n =>
+    have hu0 := pointUpd_put x.nodes _ n { n with inline := assocDel n.inline id } hg (getNode_path hg : n.path = _)
+    have key : ∀ ns', PointUpd x.nodes ns' (pathFrom (splitLevels f) 0) { n with inline := assocDel n.inline id } →
+        (getNode ns' q).bind (fun n => assocGet n.inline id') =
+          if q = pathFrom (splitLevels f) 0 ∧ id' = id then none
+          else (getNode x.nodes q).bind (fun n => assocGet n.inline id') := by
+      intro ns' hu
+      rw [hu _ _ (deadNone_inline id') q]
+      by_cases hq : q = pathFrom (splitLevels f) 0
+      · subst hq
+        simp only [if_true, true_and, assocGet_assocDel, hg, Option.bind_some]
+      · simp [hq]
+    simp only
+    split
+    · exact key _ (pointUpd_trim _ _ _ _ hu0 _ _)
+    · exact key _ hu0
+
+end Mochi.Topics
+
+namespace Mochi.Broker
+open Mochi.Topics
+
+/-- inline subscription `id` holds an index entry whose filter — the address `q` of the particle it is stored at is
+    the list of levels of the filter it was subscribed under — `specMatch`es the topic -/
+def InlineMatching (x : Index) (topic : Str) (id : Nat) : Prop :=
+  ∃ q sub, inlineAt x q id = some sub ∧ specMatch q topic = true
+
+/-- **Item 4 — `inline_delivery_exact`.**  For every structurally sound index (`IdxOK`: every reachable state), every
+    message the publish hook does not mark "ignore" (ANY QoS, shared subscriptions or not) with a non-empty topic
+    without a `#` level: `publishToSubscribers s pk` produces `Out.inline id t p` **iff** `t`, `p` are the topic and
+    payload of the message and inline subscription `id` holds an index entry whose filter `specMatch`es the topic —
+    and at most once per identifier. -/
+theorem inline_delivery_exact (s : Server) (hx : IdxOK s.topics) (pk : Msg) (hig : pk.ignore = false)
+    (hne : pk.topic ≠ []) (hnh : ∀ t ∈ splitLevels pk.topic, t ≠ [hash]) (id : Nat) :
+    (∀ t p, Out.inline id t p ∈ (publishToSubscribers s pk).2 ↔
+      t = pk.topic ∧ p = pk.payload ∧ InlineMatching s.topics pk.topic id) ∧
+    (publishToSubscribers s pk).2.count (Out.inline id pk.topic pk.payload) ≤ 1 := by
+  obtain ⟨rest, ho, hr⟩ := publishToSubscribers_outs s pk hig
+  refine ⟨?_, ?_⟩
+  · intro t p
+    rw [ho, List.mem_append, mem_inline_outs, inline_keys_iff s.topics hx.pc pk.topic hne hnh id]
+    constructor
+    · rintro (h | h)
+      · exact h
+      · have := hr _ h
+        cases this
+    · exact Or.inl
+  · rw [ho, List.count_append, count_noInline rest hr, Nat.add_zero]
+    exact count_inline_outs _ (subscribers_inline_nodup s.topics pk.topic) _ _ _
+
+theorem inlineAt_retainMessage (x : Index) (t p : Str) (fl : Bool) (q : Path) (id : Nat) :
+    inlineAt (retainMessage x t p fl).1 q id = inlineAt x q id :=
+  retainMessage_look x t p fl _ (deadNone_inline id) (fun _ _ => rfl) q
+
+theorem inlineAt_retainedState (s : Server) (pk : Msg) (q : Path) (id : Nat) :
+    inlineAt (retainedState s pk).topics q id = inlineAt s.topics q id := by
+  unfold retainedState
+  split
+  · unfold retainMsg
+    split
+    · rfl
+    · exact inlineAt_retainMessage _ _ _ _ _ _
+  · rfl
+
+theorem inlineMatching_retainedState (s : Server) (pk : Msg) (topic : Str) (id : Nat) :
+    InlineMatching (retainedState s pk).topics topic id ↔ InlineMatching s.topics topic id := by
+  unfold InlineMatching
+  simp only [inlineAt_retainedState]
+
+/-! ### the publish ops, with shared subscriptions -/
+
+/-- a QoS 0 message (or every entry of the subscriber map, selected shared members included, is QoS 0):
+    `publishToSubscribers` leaves the in-flight records and the send quota of every client object alone -/
+theorem publishToSubscribers_q0_keep_shared (s : Server) (pk : Msg) (hig : pk.ignore = false)
+    (hq : pk.qos = 0 ∨ ∀ cs ∈ subsMapOf s pk.topic, cs.2.qos = 0) (k : Nat) :
+    (getObj (publishToSubscribers s pk).1 k).inflight = (getObj s k).inflight ∧
+    (getObj (publishToSubscribers s pk).1 k).sendQuota = (getObj s k).sendQuota := by
+  rw [publishToSubscribers_eq_fold_shared s pk hig]
+  exact fold_q0_keep (stamped s pk) _ (hq.imp (fun h => (stamped_fields s pk).2.2.1.trans h) id) k _
+
+/-- `step_inlinePublish_accepted` without the hypothesis on shared subscriptions -/
+theorem step_inlinePublish_accepted_shared (s : Server) (topic payload : Str) (retain : Bool) (qos : Nat)
+    (h : AcceptedInline s topic)
+    (hq : (inlineMsg s topic payload retain qos).qos = 0 ∨
+      ∀ cs ∈ subsMapOf (retainedState s (inlineMsg s topic payload retain qos)) topic, cs.2.qos = 0) :
+    step s (.inlinePublish topic payload retain qos) =
+      publishToSubscribers (retainedState s (inlineMsg s topic payload retain qos))
+        (inlineMsg s topic payload retain qos) := by
+  have hk := publishToSubscribers_q0_keep_shared (retainedState s (inlineMsg s topic payload retain qos))
+    (inlineMsg s topic payload retain qos) rfl hq 0
+  have hn := nextImmediate_none (publishToSubscribers (retainedState s (inlineMsg s topic payload retain qos))
+    (inlineMsg s topic payload retain qos)).1 0 (by
+      rw [hk.1, getObj_retainedState]; exact h.noDeferred)
+  rw [step]
+  unfold receivePacket
+  simp only [publishValidate_inline s topic qos h.noWild h.nonempty,
+    processPublish_inline_shape s topic payload retain qos h, hn, List.append_nil]
+
+/-- `step_recv_publish_accepted` without the hypothesis on shared subscriptions -/
+theorem step_recv_publish_accepted_shared (s : Server) (conn i : Nat) (dup retain : Bool) (topic payload : Str)
+    (me : Nat) (hc : assocGet s.connOf conn = some i) (h : AcceptedQ0 s i topic) :
+    step s (.recv conn (.publish 0 dup retain 0 topic payload me none)) =
+      publishToSubscribers (retainedState s (inboundMsg s i 0 dup retain 0 topic payload me))
+        (inboundMsg s i 0 dup retain 0 topic payload me) := by
+  have hk := publishToSubscribers_q0_keep_shared (retainedState s (inboundMsg s i 0 dup retain 0 topic payload me))
+    (inboundMsg s i 0 dup retain 0 topic payload me) rfl (Or.inl rfl) i
+  have hd := (publishToSubscribers_deliv (retainedState s (inboundMsg s i 0 dup retain 0 topic payload me))
+    (inboundMsg s i 0 dup retain 0 topic payload me)).all i
+  rw [getObj_retainedState] at hd
+  have ho := hd.isOpen.symm.trans h.isOpen
+  have hp := hd.peerGone.symm.trans h.peer
+  have hn := nextImmediate_none (publishToSubscribers (retainedState s (inboundMsg s i 0 dup retain 0 topic payload me))
+    (inboundMsg s i 0 dup retain 0 topic payload me)).1 i (by
+      rw [hk.1, getObj_retainedState]; exact h.noDeferred)
+  have hrp : receivePacket s i (.publish 0 dup retain 0 topic payload me none) =
+      ((publishToSubscribers (retainedState s (inboundMsg s i 0 dup retain 0 topic payload me))
+          (inboundMsg s i 0 dup retain 0 topic payload me)).1,
+       (publishToSubscribers (retainedState s (inboundMsg s i 0 dup retain 0 topic payload me))
+          (inboundMsg s i 0 dup retain 0 topic payload me)).2, none) := by
+    unfold receivePacket
+    simp only [publishValidate_accepted s topic h.valid h.nonempty,
+      processPublish_accepted_shape s i dup retain 0 topic payload me h.notInline h.valid h.quota h.acl h.noRecord
+        h.nonempty h.hook, hn, List.append_nil]
+  have hping := receivePacket_pingreq_quiet _ i ho hp (by
+    rw [hk.1, getObj_retainedState]; exact h.noDeferred)
+  rw [step]
+  unfold recvOn
+  simp only [hc, h.isOpen, hrp, ho, hping,
+    Bool.not_true, Bool.false_eq_true, if_false, if_true, List.filter_cons, List.filter_nil, List.append_nil]
+
 end Mochi.Broker
